@@ -527,7 +527,7 @@ func c16CrossFile(ctx *Ctx) (checked int, sigs map[string]bool, probs []crossPro
 	sigs = map[string]bool{}
 	const custID, orderID = "https://example.com/customer", "https://example.com/order"
 	mod := c20ModFiles(ctx.Env)
-	n := ctx.N(48, 192)
+	n := ctx.N(96, 384)
 	type res struct {
 		p   *crossProblem
 		sig string
@@ -553,6 +553,12 @@ func c16CrossFile(ctx *Ctx) (checked int, sigs map[string]bool, probs []crossPro
 		if i%2 == 0 {
 			order.Props = append(order.Props, sg.Prop{Name: "shipTo", S: &sg.Schema{Ref: "customer" + ext + "#/$defs/Address", Target: addr}})
 		}
+		typeless := (i/24)%2 == 1
+		if typeless {
+			// a referenced document without a "type" of its own is named where it is referred to
+			cust.Types = nil
+		}
+		order.Title, cust.Title = "Purchase Order", "Postal Address"
 		var base []string
 		mapping := i % 4 // which of package/output the referenced schema is mapped with
 		if mapping&1 != 0 {
@@ -571,6 +577,11 @@ func c16CrossFile(ctx *Ctx) (checked int, sigs map[string]bool, probs []crossPro
 			which, oldName = orderID, "Order"+strings.ToUpper(ext[1:2])+ext[2:]
 		}
 		with := append(append([]string{}, base...), "--schema-root-type", which+"=Renamed")
+		titleNeighbour := mapping == 0 && (i/48)%2 == 1
+		if titleNeighbour {
+			// +-struct-name-from-title instead (one package: every identifier is local and masked)
+			with = append(append([]string{}, base...), "--struct-name-from-title")
+		}
 		files := append([]batch.File{}, mod...)
 		data := func(s *sg.Schema) []byte {
 			if yaml {
@@ -585,7 +596,7 @@ func c16CrossFile(ctx *Ctx) (checked int, sigs map[string]bool, probs []crossPro
 		}
 		ra, rb := run(base), run(with)
 		defer ra.Cleanup()
-		sig := fmt.Sprintf("cross mapping=%d mode=%d which=%s yaml=%v", mapping, (i/4)%3, oldName, yaml)
+		sig := fmt.Sprintf("cross mapping=%d mode=%d which=%s yaml=%v typeless=%v title=%v", mapping, (i/4)%3, oldName, yaml, typeless, titleNeighbour)
 		results[i].sig = sig
 		fail := func(msg string) {
 			results[i].p = &crossProblem{sig: sig, problem: msg, a: base, b: with, dir: rb.Dir}
@@ -609,7 +620,10 @@ func c16CrossFile(ctx *Ctx) (checked int, sigs map[string]bool, probs []crossPro
 			if !strings.HasSuffix(name, ".go") {
 				continue
 			}
-			b := re.ReplaceAll(ob[name], []byte(oldName))
+			b := ob[name]
+			if !titleNeighbour {
+				b = re.ReplaceAll(b, []byte(oldName))
+			}
 			ma, errA := maskedDecls(a)
 			mb, errB := maskedDecls(b)
 			if errA != nil || errB != nil {
